@@ -462,9 +462,9 @@ def task_hyp(ctx: Ctx, shard: int, n: int, cultures: list[str]) -> None:
 
 
 PANEL = {
-    "date": ["uuuu'-'MM'-'dd", "dddd, d MMMM uuuu", "d MMM yyyy g", "M/d/yyyy", "yyyy'年'M'月'd'日'", "dd.MM.uuuu c", "MMMM d, uuuu"],
+    "date": ["uuuu'-'MM'-'dd", "dddd, d MMMM uuuu", "d MMM yyyy g", "M/d/yyyy", "yyyy'年'M'月'd'日'", "dd.MM.uuuu c", "MMMM d, uuuu", "MMM uuuu", "MMMM uuuu", "uuuu MMMM"],
     "time": ["HH:mm:ss", "h:mm:ss tt", "hh.mm t", "H:m:s.FFFFFFFFF", "HH:mm:ss.fff", "hh:mm tt"],
-    "datetime": ["uuuu-MM-dd'T'HH:mm:ss.fffffffff", "dddd, d MMMM uuuu h:mm:ss tt", "M/d/yyyy g HH:mm", "d MMM uuuu H:mm:ss.FFF"],
+    "datetime": ["uuuu-MM-dd'T'HH:mm:ss.fffffffff", "dddd, d MMMM uuuu h:mm:ss tt", "M/d/yyyy g HH:mm", "d MMM uuuu H:mm:ss.FFF", "MMMM uuuu HH:mm", "MMM uuuu H"],
     "instant": ["uuuu-MM-dd'T'HH:mm:ss'Z'", "d MMM uuuu HH:mm:ss.FFFFFF"],
     "annual": ["MM-dd", "MMMM d", "d MMM", "M/d"],
 }
@@ -473,7 +473,7 @@ PANEL = {
 def task_cultures(ctx: Ctx, cultures: list[str], seed: int) -> None:
     """Every culture is visited for every type with a fixed panel of patterns and a few values."""
     vals = {
-        "date": [{"cal": "ISO", "n": 19782}, {"cal": "ISO", "n": -700000}, {"cal": "Julian", "n": 11016}],
+        "date": [{"cal": "ISO", "n": 19782}, {"cal": "ISO", "n": -700000}, {"cal": "Julian", "n": 11016}] + [{"cal": "ISO", "n": 19723 + 30 * k} for k in range(12)],
         "time": [{"ns": 0}, {"ns": 45296789012345}, {"ns": 86399999999999}, {"ns": 43200000000000}],
         "datetime": [{"cal": "ISO", "n": 19782, "ns": 45296789012345}, {"cal": "ISO", "n": 11016, "ns": 3723000000000}],
         "instant": [{"i": 1709251200123456789}, {"i": -5 * 10**17}],
